@@ -394,6 +394,10 @@ class LexicalEnum(Lexical, LangCommonEnum, lexcopy=True):
 
     __hash__ = Lexical.__hash__
 
+    # Keep the Enum read-only guard: the members copied from Lexical (lexcopy)
+    # would otherwise shadow it with a setter that never raises.
+    __setattr__ = LangCommonEnum.__setattr__
+
     @classmethod
     def first(cls) -> Self:
         if cls is __class__:
